@@ -43,6 +43,18 @@ def rule_mem(crate, prop, tier):
     }
 
 
+def rule_mem_subset(names):
+    def f(crate, prop, tier):
+        r = rule_mem(crate, prop, tier)
+        keep = [v for v in r["violations"] if any(("::" + n + "|") in v.key or ("::" + n + "::") in v.key for n in names)]
+        r = dict(r)
+        r["violations"] = keep
+        r["rule"] = "MEM(" + ",".join(names) + ")"
+        r["floors"] = {}
+        return r
+    return f
+
+
 def _schema(name):
     def f(crate, prop, tier):
         from . import schema
@@ -67,7 +79,44 @@ def _guard(name, *a):
     return f
 
 
+def _mod(mod, name, *a):
+    def f(crate, prop, tier):
+        import importlib
+        m = importlib.import_module("gsa." + mod)
+        r = getattr(m, name)
+        if a:
+            r = r(*a)
+        return r(crate, prop, tier)
+    return f
+
+
+OPS = ["complement", "converse", "union", "filter_vertices"]
+PREDS = ["is_semicomplete", "is_tournament", "is_complete", "is_regular", "is_simple"]
+
 RULES = {
+    "PURE": _mod("rules2", "rule_pure", None),
+    "PURE-OPS": _mod("rules2", "rule_pure", OPS),
+    "IDSRC": _mod("rules2", "rule_idsrc", None),
+    "IDSRC-OPS": _mod("rules2", "rule_idsrc", OPS),
+    "IDSRC-PRED": _mod("rules2", "rule_idsrc", PREDS),
+    "FROM-VALID": _mod("rules2", "rule_from_valid"),
+    "ADMISSIBLE-DET": _mod("rules2", "rule_admissible", False),
+    "ADMISSIBLE-SEEDED": _mod("rules2", "rule_admissible", True),
+    "ONE-PER-PAIR": _mod("rules2", "rule_one_per_pair"),
+    "NONDET": _mod("rules2", "rule_nondet"),
+    "RELAX-AGREE": _mod("relax", "rule_relax_agree"),
+    "FW-SHAPE": _mod("relax", "rule_fw_shape"),
+    "LAYOUT": _mod("relax", "rule_layout"),
+    "TERMINATE": _mod("relax", "rule_terminate"),
+    "CONC": _mod("conc", "rule_conc", None),
+    "CONC-OPS": _mod("conc", "rule_conc", ["complement", "union"]),
+    "CONC-PRED": _mod("conc", "rule_conc", ["is_semicomplete"]),
+    "CONC-COMPLETE": _mod("conc", "rule_conc", ["complete"]),
+    "CONC-SEEDED": _mod("conc", "rule_conc", ["erdos_renyi", "random_tournament"]),
+    "FIELDS": _mod("rules3", "rule_fields"),
+    "LEAK": _mod("rules3", "rule_leak"),
+    "MEM-SEARCH": _mod("rules", "rule_mem_subset", ["search_by"]),
+    "MEM-AMAP-PRED": _mod("rules", "rule_mem_subset", ["is_semicomplete", "is_tournament"]),
     "MEM": rule_mem,
     "GUARD": _guard("rule_guard"),
     "NOPANIC-AFTER-WRITE": _guard("rule_nopanic_after_write"),
@@ -97,7 +146,137 @@ COMMON_ASSUMPTIONS = [
 SCHEMA_TB = ["rustc MIR + trait solver", "gsa-driver fact exporter", "gsa/effects.py std semantics table",
              "the textbook invariant proofs of BFS/DFS/Dijkstra (DESIGN appendix B) connect the obligations to the property"]
 
+TB = ["rustc MIR + trait solver", "gsa-driver fact exporter", "gsa/effects.py std semantics table"]
+
 PROPERTY_RULES = {
+    "C02": {
+        "rules": ["PURE", "TOTAL", "IDSRC"],
+        "explanation": "Queries cannot change the digraph: the five representations are Freeze and in every body that receives a "
+                       "digraph by shared reference no store, raw-pointer write or *const->*mut cast targets memory behind that "
+                       "reference (PURE). The 21 documented-total queries (has_arc, has_edge, has_walk, arc_weight, remove_arc) "
+                       "have every panic-capable site (index, unwrap, overflow assert, explicit panic) in them and their crate "
+                       "callees discharged for arbitrary arguments (TOTAL). AdjacencyMap's own &self methods never use a count "
+                       "(order/size/position) as a vertex id (IDSRC).",
+        "trusted_base": TB + ["lemma L-ROWMAJOR for the bit-matrix cell index"],
+        "not_decided": "the numeric value of every query (indegree, degree sequences, has_walk's truth value, ...): value-level",
+        "assumptions": COMMON_ASSUMPTIONS,
+    },
+    "C07": {
+        "rules": ["RELAX-AGREE"],
+        "explanation": "BellmanFordMoore::distances: every relaxation store dist[v] = dist[u] + w reads (u, v, w) from the same "
+                       "arcs[i], is guarded by i < arcs_len, dist[u] != isize::MAX and dist[v] > dist[u] + w, and sets the "
+                       "`changed` flag (R1, R3); the unrolled copies relax arcs i, i+1, ..., i+k-1 and the counter advances by k "
+                       "(R2); rounds are `1..order`; the final pass examines every arc with the same strict comparator and "
+                       "unreached guard, None only there, Some only after it (R4); new() checks s < order, fills isize::MAX and "
+                       "sets dist[s] = 0 (R5).",
+        "trusted_base": TB,
+        "not_decided": "that order-1 rounds suffice and that the distances are exact (inductive value-level argument)",
+        "assumptions": COMMON_ASSUMPTIONS,
+    },
+    "C08": {
+        "rules": ["FW-SHAPE", "LAYOUT"],
+        "explanation": "FloydWarshall::distances: the update dist[a][c] = dist[a][b] + dist[b][c] has the intermediate vertex b "
+                       "in the outermost of three complete loops (F1), both operands are tested != isize::MAX (F2), the store is "
+                       "guarded by sum < dist[a][c] of the written cell (F3), weights go to cell (u, v) and 0 to (i, i) for all "
+                       "arcs / vertices (F4); every cell is addressed row-major as row*order+col, consistent with "
+                       "DistanceMatrix::{Index, IndexMut, eccentricities, new} (LAYOUT).",
+        "trusted_base": TB,
+        "not_decided": "the matrix values",
+        "assumptions": COMMON_ASSUMPTIONS,
+    },
+    "C11": {
+        "rules": ["PURE-OPS", "IDSRC-OPS", "CONC-OPS"],
+        "explanation": "complement / converse / union / filter_vertices: operands are unchanged (PURE on these methods and "
+                       "their closures); AdjacencyMap's implementations never use 0..order, a position or a count as a vertex "
+                       "id (IDSRC); the threaded AdjacencyList::{complement, union} and AdjacencyMap::union join every worker "
+                       "before returning, workers write only their own partition slots, and the row partition matches a proven "
+                       "tiling template (CONC/TILE; AdjacencyMap::union's merge path is a trusted entry).",
+        "trusted_base": TB + ["lemma L-TILE", "tables/trusted_tiles.json"],
+        "not_decided": "that the arc set is the set-theoretic one; involution/commutativity; validity of literal-built results of "
+                       "the contiguous types (value-level set reasoning through iterator chains)",
+        "assumptions": COMMON_ASSUMPTIONS,
+    },
+    "C12": {
+        "rules": ["IDSRC-PRED", "CONC-PRED", "MEM-AMAP-PRED"],
+        "explanation": "Only the structural sites of the predicates are decided: AdjacencyMap::{is_semicomplete, is_tournament} "
+                       "never index positional storage by vertex id and contain no undischarged unsafe site; the shared early-"
+                       "exit flag of the parallel AdjacencyList::is_semicomplete is only ever stored `false` (monotone), its "
+                       "workers are scoped and read rows through bounds-discharged pointers.",
+        "trusted_base": TB + ["lemma L-TILE"],
+        "not_decided": "every truth value (is_complete, is_regular, is_balanced, is_symmetric, is_oriented, sub/superdigraph): value-level",
+        "assumptions": COMMON_ASSUMPTIONS,
+    },
+    "C14": {
+        "rules": ["ADMISSIBLE-DET", "CONC-COMPLETE"],
+        "explanation": "For the 33 deterministic generator impls every path to a normal return passes the admissibility test "
+                       "(order > 0, wheel order >= 4, m > 0 and n > 0) or a delegation to Self::empty/trivial that performs it; "
+                       "the parallel AdjacencyList::complete joins all workers, partitions rows by the proven template and "
+                       "re-sorts by vertex.",
+        "trusted_base": TB + ["lemma L-TILE"],
+        "not_decided": "the arc sets of the generators (the core of the property): closed-form arithmetic, value-level",
+        "assumptions": COMMON_ASSUMPTIONS,
+    },
+    "C15": {
+        "rules": ["NONDET", "ADMISSIBLE-SEEDED", "ONE-PER-PAIR", "CONC-SEEDED"],
+        "explanation": "No library body reaches an ambient source of nondeterminism (time, hash-order containers, thread ids, "
+                       "env, OS RNG) and the CPU count flows into a PRNG seed only in the two documented AdjacencyMap "
+                       "generators (NONDET); every seeded generator checks order > 0 and p in [0, 1] before returning "
+                       "(ADMISSIBLE); random_tournament makes exactly one draw per pair u < v and inserts u->v on one outcome "
+                       "and v->u on the other, random_recursive_tree draws the parent as x % u (ONE-PER-PAIR); the threaded "
+                       "AdjacencyMap generators join their workers and partition rows by the proven template (CONC).",
+        "trusted_base": TB,
+        "not_decided": "next_f64 in [0, 1) (bit-level), the p = 0 / p = 1 extremes, statistical quality",
+        "assumptions": COMMON_ASSUMPTIONS,
+    },
+    "C16": {
+        "rules": ["FROM-VALID", "GUARD"],
+        "explanation": "Each of the 25 From impls into a representation has one of three validated shapes: (a) Self::empty(source "
+                       "order) followed by a complete loop over source.arcs() inserting exactly (tail, head) through the "
+                       "guarded add_arc / add_arc_weighted (weight constant 1); (b) a struct literal followed, before any "
+                       "return, by a complete validation loop asserting tail != head and head-in-range for every arc; (c) "
+                       "order = running max(id) + 1 accumulated in the loop that inserts (u, v) under u != v.",
+        "trusted_base": TB,
+        "not_decided": "round-trip identity as a value",
+        "assumptions": COMMON_ASSUMPTIONS,
+    },
+    "C17": {
+        "rules": ["CONC", "NONDET"],
+        "explanation": "For the 8 callers of available_parallelism: the thread count is map_or(1, NonZero::get) (>= 1); every "
+                       "thread::spawn handle is kept and joined by a complete loop before any normal return, scoped spawns are "
+                       "inside thread::scope (JOIN); workers write shared memory only at their own partition index / through an "
+                       "exclusive &mut capture / under a Mutex / as a monotone `false` store (WRITES); the row partition matches "
+                       "start = k*c or step_by(c), end = min(n, start + c), c = div_ceil(n, t), or chunks(c) (TILE); the CPU count "
+                       "reaches PRNG seeds only in the two allowed generators (NONDET).",
+        "trusted_base": TB + ["lemma L-TILE", "tables/trusted_tiles.json (AdjacencyMap::union merge path)"],
+        "not_decided": "equality with the single-threaded definition as a value; AdjacencyMap::union's merge-path tiling",
+        "assumptions": COMMON_ASSUMPTIONS,
+    },
+    "C18": {
+        "rules": ["LAYOUT"],
+        "explanation": "Only layout and fill: (u, v) is addressed as dist[u*order+v] in Index/IndexMut, rows are "
+                       "dist.chunks(order), new() allocates a checked order*order cells and writes `infinity` to every one.",
+        "trusted_base": TB,
+        "not_decided": "eccentricity / diameter / center / periphery / is_connected values",
+        "assumptions": COMMON_ASSUMPTIONS,
+    },
+    "C19": {
+        "rules": ["TERMINATE", "MEM-SEARCH"],
+        "explanation": "PredecessorTree::search_by: every iteration that continues marks a vertex that was tested unmarked "
+                       "(at most len iterations), search delegates to search_by, and the raw visited[] accesses are bounds-discharged.",
+        "trusted_base": TB,
+        "not_decided": "'returns Some exactly when ...' and the shape of the returned path: value-level",
+        "assumptions": COMMON_ASSUMPTIONS,
+    },
+    "C20": {
+        "rules": ["FIELDS", "GUARD", "ENCAPS"],
+        "explanation": "For the five representations: Clone/PartialEq/Eq/PartialOrd/Ord/Hash exist once each, eq/cmp/"
+                       "partial_cmp read every field of both operands, hash and clone every field of self, clone is field-wise; "
+                       "fields own their data (no Rc/Arc/reference/raw pointer/interior mutability); no bit outside the "
+                       "order*order cells is ever set and only the analysed mutators write the containers (GUARD + ENCAPS).",
+        "trusted_base": TB + ["BTreeSet/BTreeMap/Vec equality, ordering and hashing are those of their contents (std)"],
+        "not_decided": "'equal exactly when' over all pairs of construction histories",
+        "assumptions": COMMON_ASSUMPTIONS,
+    },
     "C01": {
         "rules": ["GUARD", "NOPANIC-AFTER-WRITE", "TOTAL-REMOVE", "ENCAPS"],
         "explanation": "For every function taking `&mut <representation>` (11 today) each arc-insertion site must be dominated "
@@ -161,7 +340,7 @@ PROPERTY_RULES = {
         "assumptions": COMMON_ASSUMPTIONS + ["mark-on-pop stack DFS (design choice encoded in the schema)"],
     },
     "C13": {
-        "rules": ["MEM"],
+        "rules": ["MEM", "LEAK"],
         "explanation": "Every unsafe operation of the library (raw pointer offset/dereference, get_unchecked, "
                        "unwrap_unchecked, set_len, ptr::read/write, int-to-pointer casts, calls of unsafe fns) is "
                        "inventoried from MIR and must carry a discharged bounds / initialisation / variant obligation: "
